@@ -70,6 +70,10 @@ def make_bank(rng, cont, enc):
     words = ['haus', 'Haus', 'der', 'Der', 'sagt', 'x', 'Maria', 'und', 'Zug',
              'zug', 'a', 'B']
     if rng.random() < 0.5:
+        # first character vs. "title case": acronyms, inner capitals, digits
+        words += ['NATO', 'McDonald', '3M', 'USA', "O'neil", 'Ab-cd', 'eBay',
+                  '-Zeichen', 'ÄB']
+    if rng.random() < 0.5:
         words += ['Übung', 'übung', 'café', 'Ärger']
         if enc == 'utf-8' and rng.random() < 0.5:
             words += ['Жук', '日本']
